@@ -1,8 +1,8 @@
 (* C17 - SOCKS4/5 test proxy relays transparently and survives malformed clients (partial).
    The proxy of src/socks_server.cpp is the program coq/Model/Apps.v (the socks_ functions)
    over the socket/resolver model: handshake, request (IPv4 address or name), CONNECT,
-   BIND, the reply codes, the relay loops and the command counters.  UDP ASSOCIATE is
-   modelled up to its reply; the datagram path (on_read_udp) is NOT modelled.
+   BIND, the reply codes, the relay loops, the command counters and UDP ASSOCIATE with
+   its datagram path (IPv4 and host-name headers, name mapping, wrapping of replies).
    The theorems are about every byte string a client can send: the reads the request
    parser asks for fit the buffer, the counter array is indexed in bounds, the replies
    carry the code of the outcome, and each relay step forwards what it read. *)
@@ -113,8 +113,49 @@ Theorem C17_async_read_hands_over_what_was_read :
 Proof. exact exact_read_assembles. Qed.
 Print Assumptions C17_async_read_hands_over_what_was_read.
 
-Theorem C17_repairs_in_place : d30_socks_parse current = true.
-Proof. reflexivity. Qed.
+(* UDP ASSOCIATE *)
+Theorem C17_udp_truncated_header_is_dropped_and_the_relay_keeps_listening :
+  forall cx srv c w n d1 d2 fam fa fp data,
+  d32_socks_udp_header (cv cx) = true ->
+  let x := get_sconn w srv c in
+  let from := {| e_addr := {| a_v6 := negb (fam =? 0); a_val := fa |}; e_port := fp |} in
+  e_port (sc_udp_ep x) <> 0 -> ep_eqb from (sc_udp_ep x) = true ->
+  n < udp_header_size n data ->
+  socks_conn_step cx srv c 17 (EC_OK :: n :: d1 :: d2 :: fam :: fa :: fp :: data) w =
+    udp_rearm cx srv c (set_sconn w srv c (x <| sc_udp_ep := sc_udp_ep x |>), []).
+Proof. exact udp_truncated_header_is_dropped. Qed.
+Print Assumptions C17_udp_truncated_header_is_dropped_and_the_relay_keeps_listening.
+
+Theorem C17_udp_datagram_is_forwarded_with_the_header_stripped :
+  forall cx srv c w n d1 d2 fam fa fp data,
+  d32_socks_udp_header (cv cx) = true ->
+  let x := get_sconn w srv c in
+  let from := {| e_addr := {| a_v6 := negb (fam =? 0); a_val := fa |}; e_port := fp |} in
+  e_port (sc_udp_ep x) <> 0 -> ep_eqb from (sc_udp_ep x) = true ->
+  10 <= n -> byte_at data 3 = 1 ->
+  socks_conn_step cx srv c 17 (EC_OK :: n :: d1 :: d2 :: fam :: fa :: fp :: data) w =
+    udp_rearm cx srv c
+      (let '(_, _, w', cs) := udp_send_to cx (so_udp srv c) [skipn 10 data]
+                               {| e_addr := {| a_v6 := false; a_val := be32_at data 4 |}; e_port := be16_at data 8 |}
+                               (set_sconn w srv c (x <| sc_udp_ep := sc_udp_ep x |>)) in (w', cs)).
+Proof. exact udp_ipv4_datagram_is_forwarded_stripped. Qed.
+Print Assumptions C17_udp_datagram_is_forwarded_with_the_header_stripped.
+
+Theorem C17_udp_reply_is_wrapped_in_a_header_naming_its_source :
+  forall cx srv c w n d1 d2 fa fp data,
+  let x := get_sconn w srv c in
+  let from := {| e_addr := {| a_v6 := false; a_val := fa |}; e_port := fp |} in
+  e_port (sc_udp_ep x) <> 0 -> ep_eqb from (sc_udp_ep x) = false ->
+  List.find (fun p => addr_eqb (fst p) (e_addr from)) (sc_names x) = None ->
+  socks_conn_step cx srv c 17 (EC_OK :: n :: d1 :: d2 :: 0 :: fa :: fp :: data) w =
+    udp_rearm cx srv c
+      (let '(_, _, w', cs) := udp_send_to cx (so_udp srv c) [[0; 0; 0; 1] ++ be32_bytes fa ++ be16_bytes fp; data] (sc_udp_ep x)
+                               (set_sconn w srv c (x <| sc_udp_ep := sc_udp_ep x |>)) in (w', cs)).
+Proof. exact udp_reply_is_wrapped. Qed.
+Print Assumptions C17_udp_reply_is_wrapped_in_a_header_naming_its_source.
+
+Theorem C17_repairs_in_place : d30_socks_parse current = true /\ d32_socks_udp_header current = true.
+Proof. split; reflexivity. Qed.
 Print Assumptions C17_repairs_in_place.
 
 (* non-vacuity: concrete requests *)
